@@ -10,7 +10,7 @@ cd $WT
 PYTHONPATH=$WT timeout 300 /venv/bin/python $SRC/demo.py >/tmp/confirm-$P-$M.clean.log 2>&1; RC_CLEAN=$?
 git apply $SRC/patch.diff || { echo "patch does not apply"; git -C /repo worktree remove --force $WT; exit 2; }
 PYTHONPATH=$WT timeout 300 /venv/bin/python $SRC/demo.py >/tmp/confirm-$P-$M.mut.log 2>&1; RC_MUT=$?
-PYTHONPATH=$WT timeout 1800 /venv/bin/python -m pytest -q -p no:cacheprovider -x --timeout=900 -k "not spark and not hypothesis" $TESTS >/tmp/confirm-$P-$M.tests.log 2>&1; RC_T=$?
+PYTHONPATH=$WT timeout 1800 /venv/bin/python -m pytest -q -p no:cacheprovider -x -n 6 --timeout=900 -k "not spark and not hypothesis" $TESTS >/tmp/confirm-$P-$M.tests.log 2>&1; RC_T=$?
 TAIL=$(tail -1 /tmp/confirm-$P-$M.tests.log)
 cd /; git -C /repo worktree remove --force $WT
 echo "$P-$M demo clean rc=$RC_CLEAN mutated rc=$RC_MUT tests rc=$RC_T :: $TAIL"
